@@ -192,3 +192,33 @@ Proof.
   intros Hf Hd. rewrite emit_human_once_in_order. apply Forall_forall. intros l Hl. apply in_map_iff in Hl as [d [<- Hin]].
   apply filter_In in Hin as [Hin _]. rewrite Forall_forall in Hd. apply human_adds_no_escape; auto.
 Qed.
+
+(* ---------- the underline lies under exactly the characters of the span ---------- *)
+Lemma display_width_acc l : forall n, fold_left (fun n c => if (c =? tab)%N then n + 4 else n + 1) l n = n + display_width l.
+Proof.
+  unfold display_width. induction l as [|c r IH]; intros n; cbn [fold_left]; [lia|].
+  rewrite IH. rewrite (IH (if (c =? tab)%N then 0 + 4 else 0 + 1)). destruct (c =? tab)%N; lia.
+Qed.
+Lemma display_width_cons c r : display_width (c :: r) = (if (c =? tab)%N then 4 else 1) + display_width r.
+Proof. unfold display_width at 1. cbn [fold_left]. rewrite display_width_acc. destruct (c =? tab)%N; lia. Qed.
+(* the width of a text is the length of what is printed for it once tabs are expanded *)
+Lemma display_width_expand l : display_width l = length (expand_tabs l).
+Proof.
+  induction l as [|c r IH]; [reflexivity|]. rewrite display_width_cons. unfold expand_tabs in *. cbn [flat_map].
+  rewrite app_length, <- IH. destruct (c =? tab)%N; reflexivity.
+Qed.
+Lemma skipn_add_ {A} (a : nat) : forall b (l : list A), skipn a (skipn b l) = skipn (b + a) l.
+Proof. induction b as [|b IH]; intros l; [reflexivity|]. destruct l as [|x l]; cbn [skipn plus]; [destruct a; reflexivity|apply IH]. Qed.
+(* a span of positive width on one line: the dashes begin in the printed column of the span's first character and there are
+   as many as the span's characters occupy when printed (tabs as four columns) -- so the underline and the underlined text,
+   both printed after the same gutter, line up character for character *)
+Theorem underline_matches_span line hs he : hs < he -> he <= length line ->
+  highlight line hs he = spaces (1 + length (expand_tabs (firstn hs line))) ++ repeat 45%N (length (expand_tabs (firstn (he - hs) (skipn hs line)))) /\
+  expand_tabs line = expand_tabs (firstn hs line) ++ expand_tabs (firstn (he - hs) (skipn hs line)) ++ expand_tabs (skipn he line).
+Proof.
+  intros H1 H2. split.
+  - unfold highlight. destruct (Nat.eqb_spec hs he) as [E|_]; [lia|]. rewrite !display_width_expand. reflexivity.
+  - unfold expand_tabs. rewrite <- !flat_map_app. f_equal.
+    assert (E : skipn he line = skipn (he - hs) (skipn hs line)) by (rewrite skipn_add_; replace (hs + (he - hs)) with he by lia; reflexivity).
+    rewrite E, firstn_skipn, firstn_skipn. reflexivity.
+Qed.
